@@ -21,7 +21,7 @@ Definition opp (k : endk) := match k with ESend => ERecv | ERecv => ESend end.
 Definition end_name (k : endk) := match k with ESend => "inter_send" | ERecv => "inter_recv" end.
 Definition end_type_name (k : endk) := match k with ESend => "Sender" | ERecv => "Receiver" end.
 
-Inductive diag := DEndInRet | DEndType | DMixed | DBothEnds | DInPattern | DNoInteract.
+Inductive diag := DEndInRet | DEndType | DMixed | DBothEnds | DInPattern | DNoInteract | DFlatName | DInterActor.
 Inductive pre := PreGet (x g : string) | PreChan (turbo : option string).
 
 Record live_out := {
@@ -113,8 +113,8 @@ Definition plain_out (ps : list param) (ret : bool) : live_out :=
   {| lo_params := flat_params ps; lo_ret := None; lo_pre := if ret then [PreChan None] else [];
      lo_fields := flat_params ps; lo_tail := None |}.
 
-(* one `&self` / `&mut self` method with at least one typed parameter; ret = the method returns a type *)
-Definition gen (interact ret : bool) (ps : list param) : result :=
+(* get_some_inter_vars and what cont.rs makes of its result *)
+Definition gen_inter (interact ret : bool) (ps : list param) : result :=
   if interact then
     match scan ps ret with
     | inl d => Diag d
@@ -134,6 +134,28 @@ Definition gen (interact ret : bool) (ps : list param) : result :=
         end
     end
   else if check_plain ps then Diag DNoInteract else Ok (plain_out ps ret).
+
+(* ---- naming checks that run before the interact rules (set_args_inter_vars) ---- *)
+(* check_inter_actor: the binder of the actor inside the generated code is `inter_actor` *)
+Definition check_actor (ps : list param) : bool := existsb (fun q => existsb (String.eqb "inter_actor") (leaves (fst q))) ps.
+(* names the model binds itself; a composite pattern must not flatten to one of them *)
+Definition model_reserved (x : string) : bool := String.eqb x "inter_actor" || reserved x.
+Definition composite (p : pat) : bool := match p with PId _ => false | _ => true end.
+(* check_flat_ident inside flat_arguments, over ALL parameters in order: true = naming conflict *)
+Fixpoint flat_check (ps : list param) (seen : list string) : bool :=
+  match ps with
+  | [] => false
+  | q :: t => let x := flat_name (fst q) in
+              if mem x seen then true
+              else if composite (fst q) && model_reserved x then true
+              else flat_check t (x :: seen)
+  end.
+
+(* one `&self` / `&mut self` method with at least one typed parameter; ret = the method returns a type *)
+Definition gen (interact ret : bool) (ps : list param) : result :=
+  if check_actor ps then Diag DInterActor
+  else if flat_check ps [] then Diag DFlatName
+  else gen_inter interact ret ps.
 
 (* ---- declarative vocabulary of the theorems ---- *)
 Definition pname (q : param) : option string := match fst q with PId x => Some x | _ => None end.
